@@ -276,14 +276,21 @@ func (y *YangType) Equal(t *YangType) bool {
 		len(y.Range) != len(t.Range),
 		!y.Range.Equal(t.Range),
 		!tsEqual(y.Type, t.Type),
-		!cmp.Equal(y.Enum, t.Enum, cmp.Comparer(func(t, u EnumType) bool {
-			return cmp.Equal(t.unique, u.unique) && cmp.Equal(t.ToInt, u.ToInt) && cmp.Equal(t.ToString, u.ToString)
-		})):
+		!enumEqual(y.Enum, t.Enum),
+		!enumEqual(y.Bit, t.Bit):
 
 		return false
 	}
-	// TODO(borman): Base, Bit
+	// TODO(borman): Base
 	return true
+}
+
+// enumEqual returns true if e and f hold the same names and values (or are
+// both nil).
+func enumEqual(e, f *EnumType) bool {
+	return cmp.Equal(e, f, cmp.Comparer(func(t, u EnumType) bool {
+		return cmp.Equal(t.unique, u.unique) && cmp.Equal(t.ToInt, u.ToInt) && cmp.Equal(t.ToString, u.ToString)
+	}))
 }
 
 // typedef returns a Typedef created from y for insertion into the BaseTypedefs
